@@ -7,3 +7,7 @@ package verifhook
 
 // At marks a hook point. It does nothing unless built with the "verif" tag.
 func At(string) {}
+
+// Skip reports whether the harness asked for the named optional step to be
+// left out. It is always false unless built with the "verif" tag.
+func Skip(string) bool { return false }
